@@ -136,7 +136,7 @@ def run(ctx):
     # ---------------------------------------------------------------- fan-out
     for name in ("enable_trading", "disable_trading"):
         f = m.market_fn(name)
-        q = m.q(f)
+        q = m.qi(f)
         from .stepmodel import fanout_ok
         ok, c0, detail = fanout_ok(m, q, "order_books", name)
         ctx.check(ok, "fan-out", "Market::" + name, ctx.loc(f), "Market::%s calls OrderBook::%s for every book (%s)" % (name, name, detail),
